@@ -48,19 +48,29 @@ OTHER_IDS = [bytes.fromhex("01a2b3c4d5e6f708192a3b4c5d6e7f80"), bytes.fromhex("0
              bytes.fromhex("01ffeeddccbbaa998877665544332211")]
 
 
-def icc_profile(rng, kind):
+def icc_profile(rng, kind, bloated=False):
     """kind: 'srgb' (recognised profile id), 'other'. Half of the profiles are compressible (so that re-compression pays off) and
     the profile IDs come from small pools: different profiles of equal length that carry the same ID occur within one run (an ID
     does not identify the content: it does not cover the rendering intent / flags, and edited profiles keep stale IDs)"""
     n = rng.choice([128, 200, 400])
-    if rng.random() < 0.5:
+    if rng.random() < 0.5 and not bloated:
         p = bytearray(rng.randrange(256) for _ in range(n))
     else:
+        if bloated or rng.random() < 0.35:
+            n = rng.choice([3000, 6000])     # inflates beyond the buffer extract_icc guesses (2 x compressed + 1000): the profile stays opaque
         p = bytearray(n)
         for _ in range(rng.randrange(1, 6)):
             p[rng.randrange(n)] = rng.randrange(256)
         p[44:48] = bytes(rng.randrange(256) for _ in range(4))
     p[67] = rng.randrange(4)
+    # the profile-size field of the ICC header: exact, smaller than the data present (padded stream) or larger
+    r = rng.random()
+    if r < 0.4:
+        p[0:4] = struct.pack(">I", n)
+    elif r < 0.7 and n > 168:
+        p[0:4] = struct.pack(">I", rng.randrange(128, n - 8))
+    elif r < 0.8:
+        p[0:4] = struct.pack(">I", n + rng.randrange(1, 500))
     if kind == "srgb":
         p[84:100] = rng.choice(SRGB_IDS)
     else:
